@@ -43,12 +43,63 @@ def enumerate_paths(fn, start=0, stop_blocks=(), budget=50000, sites=False, dty_
         fn._sites = False
         fn._expr_cache = {}
 
-    def walk(bb, conds, blocks, assumed):
+    def step_env(env, bb):
+        """path-sensitive values of locals (constants, copies, calls, Not) after block bb"""
+        blk = fn.blocks[bb]
+        cur = env
+        copied = False
+        for s in blk["s"]:
+            if s["k"] != "assign" or s["pl"]["p"]:
+                continue
+            rv = s["rv"]
+            l = s["pl"]["l"]
+            val = None
+            if rv["k"] == "use":
+                op = rv["op"]
+                if op["k"] == "const":
+                    val = fn.expr_operand(op)
+                elif op["k"] in ("copy", "move") and not op["pl"]["p"]:
+                    val = cur.get(op["pl"]["l"])
+            elif rv["k"] == "unop" and rv["op"] == "Not":
+                op = rv["a"]
+                if op["k"] in ("copy", "move") and not op["pl"]["p"] and op["pl"]["l"] in cur:
+                    v = cur[op["pl"]["l"]]
+                    val = {"true": "false", "false": "true"}.get(v, f"Not({v})")
+            if val is not None or l in cur:
+                if not copied:
+                    cur = dict(cur)
+                    copied = True
+                if val is None:
+                    cur.pop(l, None)
+                else:
+                    cur[l] = val
+        t = blk["t"]
+        if t["k"] == "call" and not t["dest"]["p"]:
+            if not copied:
+                cur = dict(cur)
+            cur[t["dest"]["l"]] = fn.expr_call(t)
+        return cur
+
+    def discr_key(t, env):
+        e, neg = _norm_discr(fn, t["discr"], sites)
+        if "φ{" in e:
+            op = t["discr"]
+            if op["k"] in ("copy", "move") and not op["pl"]["p"] and op["pl"]["l"] in env:
+                e = env[op["pl"]["l"]]
+                neg = False
+                while e.startswith("Not(") and e.endswith(")"):
+                    e = e[4:-1]
+                    neg = not neg
+        return e, neg
+
+    def walk(bb, conds, blocks, assumed, env=None):
+        env = env or {}
         while True:
             if bb in blocks:
                 out.append(Path(tuple(conds), tuple(blocks), f"backedge:{bb}"))
                 return
             blocks = blocks + [bb]
+            env = step_env(env, bb)
             if bb in stop_blocks and len(blocks) > 1:
                 out.append(Path(tuple(conds), tuple(blocks), f"stop:{bb}"))
                 return
@@ -61,8 +112,19 @@ def enumerate_paths(fn, start=0, stop_blocks=(), budget=50000, sites=False, dty_
                 out.append(Path(tuple(conds), tuple(blocks), "diverge"))
                 return
             if k == "switch":
-                e, neg = _norm_discr(fn, t["discr"], sites)
+                e, neg = discr_key(t, env)
                 isbool = t["dty"] == "bool"
+                if e in ("true", "false") and isbool:
+                    # decided by constant propagation along this path
+                    want = 1 if e == "true" else 0
+                    if neg:
+                        want = 1 - want
+                    nxt = None
+                    for v, tb in t["targets"]:
+                        if v == want:
+                            nxt = tb
+                    bb = nxt if nxt is not None else t["otherwise"]
+                    continue
                 listed = [v for v, _ in t["targets"]]
                 branches = []
                 for v, tb in t["targets"]:
@@ -91,7 +153,7 @@ def enumerate_paths(fn, start=0, stop_blocks=(), budget=50000, sites=False, dty_
                             f"path budget {budget} exceeded in {fn.name} (bb{bb})")
                     a2 = dict(assumed)
                     a2[e] = v
-                    walk(tb, conds + [(e, v)], blocks, a2)
+                    walk(tb, conds + [(e, v)], blocks, a2, env)
                 return
             succ = fn.succ(bb)
             if not succ:
